@@ -806,4 +806,5 @@ func runC19(c *core.Ctx) {
 	c19RunLL(c)
 	c19RunCap(c)
 	c19RunChord(c)
+	c19RunExpandNearFull(c)
 }
